@@ -235,6 +235,7 @@ pub enum Final {
     ReaderRead(usize),
     ReaderBufRead(usize),
     ReaderToEnd,
+    ReaderExact(usize),
 }
 
 /// Run one case: build the tree, apply `ops` through access path `path`, then finish.
@@ -346,6 +347,19 @@ pub fn run_case(o: &mut Obs, spec: &Spec, ops: &[ROp], path: usize, fin: Final, 
             }
             root = rd.into_inner();
         }
+        Final::ReaderExact(k) => {
+            let k = k.min(rest.len());
+            let mut rd = root.reader();
+            let mut dst = vec![0u8; k];
+            let r = rd.read_exact(&mut dst);
+            o.inc("reader_ops");
+            if r.is_err() || dst[..] != rest[..k] {
+                report(o, spec, "reader-read_exact", case, &format!("read_exact({k}) with {} available returned {:?} / {:?}", rest.len(), r.map_err(|e| e.to_string()), &dst[..k.min(12)]), true);
+                return;
+            }
+            consumed += k;
+            root = rd.into_inner();
+        }
         Final::ReaderToEnd => {
             let mut rd = root.reader();
             let mut v = Vec::new();
@@ -385,6 +399,12 @@ pub fn gen_leaf(r: &mut Rng, d: Vec<u8>) -> Spec {
         1 => Spec::Bytes(r.below(5), d),
         2 => Spec::BytesMut(r.below(3), d),
         3 => {
+            if n == 0 && r.chance(1, 2) {
+                // position beyond the end: the cursor is empty (saturating arithmetic)
+                let v = data(r.below(4), 98);
+                let p = v.len() + 1 + r.below(3);
+                return Spec::Cursor(p, v);
+            }
             let p = r.below(4);
             let mut v = data(p, 99);
             v.extend(d);
